@@ -9,73 +9,113 @@ from __future__ import annotations
 import ast
 
 from ..core import Rule, AnalysisError, norm
-from .. import pyfront
+from .. import pyfront, pyutil
 
 LD = "python/digital_rf/list_drf.py"
 PRIMS = {"_run_cp": {"shutil.copy2"}, "_run_mv": {"shutil.move"}, "_run_ln": {"link_fun"}}
 
 
-def _loop(fn):
-    loops = [s for s in fn.body if isinstance(s, ast.For)]
-    return loops[-1] if loops else None
+def transfer_loops(m):
+    """Module functions that contain a loop over ilsdrf(<src>, **kwargs) with a call taking (srcpath-like, destpath-like)."""
+    out = []
+    for q, f in m.functions.items():
+        if "<locals>" in q:
+            continue
+        for lp in [n for n in pyfront.walk_no_nested(f) if isinstance(n, ast.For)]:
+            it = lp.iter
+            if isinstance(it, ast.Call) and pyfront.call_name(it) == "ilsdrf" and any(k.arg is None for k in it.keywords):
+                out.append((q, f, lp))
+    return out
 
 
-class _Abs(ast.NodeTransformer):
-    def __init__(self, prim):
-        self.prim = prim
-
-    def visit_Call(self, node):
-        self.generic_visit(node)
-        if pyfront.call_name(node) in self.prim:
-            node.func = ast.Name(id="TRANSFER", ctx=ast.Load())
-        return node
+def _outer_loop(m, inner):
+    p = m.parents.get(inner)
+    while p is not None and not isinstance(p, ast.For):
+        p = m.parents.get(p)
+    return p
 
 
 def r1_transfer_loops(repo=None):
     r = Rule("C18.R1", "cp, ln and mv run the same loop over the listing, differing only in the transfer primitive (sibling)")
     m = pyfront.mod("list_drf", repo)
+    loops = [(q, f, lp) for q, f, lp in transfer_loops(m) if not q.startswith("_run_ls")]
+    if not loops:
+        raise AnalysisError("no loop over ilsdrf(src, **kwargs) with a transfer found in list_drf")
+    by_fn = {q: (f, lp) for q, f, lp in loops}
     shapes = {}
     for name, prim in PRIMS.items():
         f = m.fn(name)
-        lp = _loop(f)
-        if lp is None:
-            r.violation(m.rel, name, "no transfer loop", "command does not iterate over source/destination pairs", line=f.lineno)
-            continue
-        import copy
-        t = _Abs(prim).visit(copy.deepcopy(lp))
-        shapes[name] = norm(ast.unparse(t))
-        src = norm(ast.unparse(lp))
-        # iterate the listing directly, no filter/continue/break, one transfer per listed path
-        inner = [s for s in lp.body if isinstance(s, ast.For)]
-        ok = norm(ast.unparse(lp.iter)) == "args.srcdests" and len(inner) == 1 and norm(ast.unparse(inner[0].iter)) == "ilsdrf(src, **kwargs)"
-        extra = [x for x in ast.walk(lp) if isinstance(x, (ast.Continue, ast.Break, ast.Return))]
-        transfers = [c for c in ast.walk(lp) if isinstance(c, ast.Call) and pyfront.call_name(c) in prim]
-        conditional = [c for c in transfers if any(isinstance(a, (ast.If, ast.Try, ast.While)) for a in _anc(m, c) if a is not lp and _inside(lp, a))]
-        if not ok or extra or len(transfers) != 1 or conditional:
-            r.violation(m.rel, name, "transfer loop shape", "the command does not transfer every path of ilsdrf(src, **kwargs) exactly once "
-                        "(filter, early exit or conditional transfer)", line=lp.lineno)
-            continue
-        c = transfers[0]
-        if [norm(ast.unparse(a)) for a in c.args] != ["srcpath", "destpath"]:
-            r.violation(m.rel, name, norm(ast.unparse(c)), "transfer primitive not called with (srcpath, destpath)", line=c.lineno)
-            continue
-        dp = [n for n in ast.walk(lp) if isinstance(n, ast.Assign) and norm(ast.unparse(n.targets[0])) == "destpath"]
-        rel_ok = len(dp) == 1 and isinstance(dp[0].value, ast.Call) and pyfront.call_name(dp[0].value) == "os.path.join" \
-            and norm(ast.unparse(dp[0].value.args[0])) == "dest" and len(dp[0].value.args) == 2 \
-            and norm(ast.unparse(dp[0].value.args[1])) == "os.path.relpath(srcpath, src)"
-        if rel_ok:
-            r.ok("%s:%s %s" % (m.rel, lp.lineno, name), "for every path of ilsdrf(src, **kwargs): destpath = join(dest, relpath(srcpath, src)); "
-                 "directory created if missing; one unconditional transfer")
+        # the loop is in the run function itself, or in a helper it calls with the primitive as an argument
+        loc = None
+        if name in by_fn:
+            loc = (name, by_fn[name][0], by_fn[name][1], None)
         else:
-            r.violation(m.rel, name, norm(ast.unparse(dp[0]))[:100] if dp else "destpath", "the destination path is not dest joined with "
+            for h, call, binding in pyutil.local_helpers(m, f, depth=1):
+                hq = m.qualname_of(h.body[0]) if h.body else None
+                for q, (hf, lp) in by_fn.items():
+                    if hf is h:
+                        loc = (q, hf, lp, binding)
+        if loc is None:
+            raise AnalysisError("%s: transfer loop not found in the function or in a helper it calls" % name)
+        q, hf, inner, binding = loc
+        outer = _outer_loop(m, inner)
+        # which callee is the transfer: the call taking the loop variable of the listing as first argument
+        srcvar = inner.target.id if isinstance(inner.target, ast.Name) else None
+        tcalls = [c for c in ast.walk(inner) if isinstance(c, ast.Call) and c.args and isinstance(c.args[0], ast.Name)
+                  and c.args[0].id == srcvar and len(c.args) == 2 and pyfront.call_name(c) not in ("os.path.relpath", "os.path.join")]
+        if len(tcalls) != 1:
+            r.violation(m.rel, q, "%d transfer calls per listed path" % len(tcalls), "each listed file must be transferred exactly once",
+                        line=inner.lineno)
+            continue
+        tc = tcalls[0]
+        callee = pyfront.call_name(tc)
+        actual = callee
+        if binding is not None and callee in binding:
+            actual = norm(ast.unparse(binding[callee]))
+        if actual not in prim:
+            r.violation(m.rel, name, "transfer primitive `%s`" % actual, "`drf %s` transfers files with %s instead of %s" % (
+                name[5:], actual, sorted(prim)), line=tc.lineno)
+            continue
+        # no filter / early exit / conditional transfer
+        extra = [x for x in ast.walk(inner) if isinstance(x, (ast.Continue, ast.Break, ast.Return))]
+        cond = [a_ for a_ in _anc(m, tc) if isinstance(a_, (ast.If, ast.Try, ast.While)) and _inside(inner, a_)]
+        src_iter = outer is not None and norm(ast.unparse(outer.iter)) == "args.srcdests"
+        srcname = norm(ast.unparse(inner.iter.args[0])) if inner.iter.args else None
+        pair_ok = outer is not None and isinstance(outer.target, ast.Tuple) and len(outer.target.elts) == 2 \
+            and isinstance(outer.target.elts[0], ast.Name) and outer.target.elts[0].id == srcname
+        if extra or cond or not src_iter or not pair_ok:
+            what = extra[0] if extra else (cond[0] if cond else inner)
+            r.violation(m.rel, q, norm(ast.unparse(what))[:80], "the command does not transfer every path of ilsdrf(src, **kwargs) for every "
+                        "(src, dest) pair exactly once (filter, early exit or conditional transfer)", line=what.lineno)
+            continue
+        destname = outer.target.elts[1].id if isinstance(outer.target.elts[1], ast.Name) else None
+        dvar = norm(ast.unparse(tc.args[1]))
+        dp = [n for n in ast.walk(inner) if isinstance(n, ast.Assign) and norm(ast.unparse(n.targets[0])) == dvar]
+        rel_ok = len(dp) == 1 and isinstance(dp[0].value, ast.Call) and pyfront.call_name(dp[0].value) == "os.path.join" \
+            and len(dp[0].value.args) == 2 and norm(ast.unparse(dp[0].value.args[0])) == destname \
+            and norm(ast.unparse(dp[0].value.args[1])) == "os.path.relpath(%s, %s)" % (srcvar, srcname)
+        if not dp:
+            raise AnalysisError("%s: definition of the destination path `%s` not found" % (q, dvar))
+        if rel_ok:
+            r.ok("%s:%s %s%s" % (m.rel, inner.lineno, name, "" if q == name else " (via %s)" % q),
+                 "for every path of ilsdrf(src, **kwargs): destination = join(dest, relpath(path, src)); one unconditional %s" % actual)
+        else:
+            r.violation(m.rel, q, norm(ast.unparse(dp[0]))[:100], "the destination path is not dest joined with "
                         "os.path.relpath(srcpath, src): files can land at a different relative path (e.g. string slicing is wrong "
-                        "when src is not normalised)", line=(dp[0].lineno if dp else lp.lineno))
-    if len(set(shapes.values())) == 1 and len(shapes) == 3:
-        r.ok("%s _run_cp/_run_ln/_run_mv" % m.rel, "loops are identical after abstracting the transfer primitive")
-    elif len(shapes) == 3:
-        odd = [k for k in shapes if list(shapes.values()).count(shapes[k]) == 1]
-        r.violation(m.rel, odd[0] if odd else "_run_cp", "transfer loop differs from its siblings", "cp, ln and mv no longer select / place "
-                    "files identically", line=m.fn(odd[0] if odd else "_run_cp").lineno)
+                        "when src is not normalised)", line=dp[0].lineno)
+        import copy
+        t = copy.deepcopy(outer)
+        for c in ast.walk(t):
+            if isinstance(c, ast.Call) and pyfront.call_name(c) == callee:
+                c.func = ast.Name(id="TRANSFER", ctx=ast.Load())
+        shapes[name] = pyutil.alpha(t)
+    if len(shapes) == 3:
+        if len(set(shapes.values())) == 1:
+            r.ok("%s _run_cp/_run_ln/_run_mv" % m.rel, "loops are identical after abstracting the transfer primitive and local names")
+        else:
+            odd = [k for k in shapes if list(shapes.values()).count(shapes[k]) == 1]
+            r.violation(m.rel, odd[0] if odd else "_run_cp", "transfer loop differs from its siblings", "cp, ln and mv no longer select / place "
+                        "files identically", line=m.fn(odd[0] if odd else "_run_cp").lineno)
     r.guard(4)
     return r
 
@@ -89,6 +129,29 @@ def _anc(m, n):
 
 def _inside(outer, n):
     return hasattr(n, "lineno") and outer.lineno <= n.lineno <= outer.end_lineno
+
+
+def _deleted_keys(m, fn):
+    """Keys removed from the kwargs dict built from vars(args): `del kwargs["k"]` statements in fn, or a constant tuple
+    handed to a helper that deletes `for key in <param>: del kwargs[key]`."""
+    keys = set()
+    for n in ast.walk(fn):
+        if isinstance(n, ast.Delete):
+            for t in n.targets:
+                if isinstance(t, ast.Subscript) and isinstance(pyfront.const(t.slice), str):
+                    keys.add(pyfront.const(t.slice))
+    for h, call, binding in pyutil.local_helpers(m, fn, depth=1):
+        loops = [lp for lp in ast.walk(h) if isinstance(lp, ast.For) and isinstance(lp.iter, ast.Name) and lp.iter.id in binding
+                 and any(isinstance(d, ast.Delete) and isinstance(d.targets[0], ast.Subscript) and isinstance(d.targets[0].slice, ast.Name)
+                         and isinstance(lp.target, ast.Name) and d.targets[0].slice.id == lp.target.id for d in ast.walk(lp))]
+        for lp in loops:
+            arg = binding[lp.iter.id]
+            if isinstance(arg, (ast.Tuple, ast.List)) and all(isinstance(pyfront.const(e), str) for e in arg.elts):
+                keys |= {pyfront.const(e) for e in arg.elts}
+            else:
+                raise AnalysisError("%s: keys excluded from the ilsdrf kwargs are not a constant tuple" % m.qualname_of(call))
+        keys |= _deleted_keys(m, h) if not loops else set()
+    return keys
 
 
 def _dests(m, fname):
@@ -119,8 +182,7 @@ def r2_option_table(repo=None):
         ps = m.fn("_parse_srcdest_args")
         added = {t.attr for n in ast.walk(ps) if isinstance(n, ast.Assign) for t in n.targets if isinstance(t, ast.Attribute)
                  and isinstance(t.value, ast.Name) and t.value.id == "args"}
-        deleted = {pyfront.const(n.targets[0].slice) for n in ast.walk(ps) if isinstance(n, ast.Delete)
-                   and isinstance(n.targets[0], ast.Subscript) and norm(ast.unparse(n.targets[0].value)) == "kwargs"}
+        deleted = _deleted_keys(m, ps)
         rf = m.fn(runner)
         pre_deleted = {t.attr for n in ast.walk(rf) if isinstance(n, ast.Delete) for t in n.targets if isinstance(t, ast.Attribute)
                        and isinstance(t.value, ast.Name) and t.value.id == "args"}
@@ -135,8 +197,7 @@ def r2_option_table(repo=None):
     # ls
     dests = set(_dests(m, "_build_ls_parser")) | {"func"}
     rl = m.fn("_run_ls")
-    deleted = {pyfront.const(n.targets[0].slice) for n in ast.walk(rl) if isinstance(n, ast.Delete)
-               and isinstance(n.targets[0], ast.Subscript) and norm(ast.unparse(n.targets[0].value)) == "kwargs"}
+    deleted = _deleted_keys(m, rl)
     final = dests - deleted
     if final == set(params):
         r.ok("%s ls options -> ilsdrf kwargs" % m.rel, "kwargs passed to ilsdrf/lsdrf are exactly its parameters")
@@ -191,20 +252,27 @@ def r3_wiring(repo=None):
             r.ok("%s %s -> %s -> %s" % (dm.rel, cmd, b, run), "registered and dispatched to the matching run function")
         else:
             r.violation(m.rel, b, "set_defaults(func=%s)" % got, "`drf %s` runs %s instead of %s" % (cmd, got, run), line=bf.lineno)
-    prim = {"_run_cp": ["shutil.copy2"], "_run_mv": ["shutil.move"]}
-    for run, ps in prim.items():
-        f = m.fn(run)
-        calls = [pyfront.call_name(c) for c in ast.walk(f) if isinstance(c, ast.Call) and (pyfront.call_name(c) or "").startswith(("shutil.", "os.link", "os.symlink", "os.rename", "os.remove"))]
-        if calls == ps:
-            r.ok("%s %s" % (m.rel, run), "transfer primitive is %s" % ps[0])
-        else:
-            r.violation(m.rel, run, "primitives %s" % calls, "expected %s" % ps, line=f.lineno)
     f = m.fn("_run_ln")
-    src = norm(ast.unparse(f))
-    if "if args.symbolic: link_fun = os.symlink else: link_fun = os.link" in src:
+    vals = {}
+    for n in ast.walk(f):
+        if isinstance(n, ast.Assign) and isinstance(n.targets[0], ast.Name) and n.targets[0].id == "link_fun":
+            v = n.value
+            if isinstance(v, ast.IfExp):
+                vals[norm(ast.unparse(v.test))] = (norm(ast.unparse(v.body)), norm(ast.unparse(v.orelse)))
+            else:
+                par = m.parents.get(n)
+                if isinstance(par, ast.If):
+                    t = norm(ast.unparse(par.test))
+                    cur = vals.get(t, [None, None])
+                    cur = list(cur)
+                    cur[0 if n in par.body else 1] = norm(ast.unparse(v))
+                    vals[t] = tuple(cur)
+    if vals.get("args.symbolic") == ("os.symlink", "os.link") or vals.get("not args.symbolic") == ("os.link", "os.symlink"):
         r.ok("%s _run_ln" % m.rel, "os.symlink when --symbolic, os.link otherwise")
+    elif not vals:
+        raise AnalysisError("_run_ln: selection of the link function not recognised")
     else:
-        r.violation(m.rel, "_run_ln", "link function selection", "hard/symbolic selection altered", line=f.lineno)
+        r.violation(m.rel, "_run_ln", "link function selection %s" % vals, "hard/symbolic selection altered", line=f.lineno)
     # listing source for ls
     rl = m.fn("_run_ls")
     srcs = {pyfront.call_name(c) for c in ast.walk(rl) if isinstance(c, ast.Call) and pyfront.call_name(c) in ("ilsdrf", "lsdrf", "os.walk", "os.listdir", "glob.glob")}
@@ -230,10 +298,10 @@ def r4_channel_pairs(repo=None):
     muts = [c for c in ast.walk(f) if isinstance(c, ast.Call) and isinstance(c.func, ast.Attribute)
             and norm(ast.unparse(c.func.value)) in ("args.chs", "args.srcdests")
             and c.func.attr in ("remove", "pop", "append", "extend", "insert", "clear", "sort", "reverse")]
-    ok_chs = len(chs) == 1 and norm(ast.unparse(chs[0].value)) == "[b.strip() for a in args.chs for b in a.strip().split(',')]"
+    ok_chs = len(chs) == 1 and pyutil.alpha(chs[0].value) == "[v1.strip() for v0 in args.chs for v1 in v0.strip().split(',')]"
     comp = [n for n in sd if isinstance(n.value, ast.ListComp)]
     ok_sd = len(sd) == 2 and len(comp) == 1 and not comp[0].value.generators[0].ifs and norm(ast.unparse(comp[0].value.generators[0].iter)) == "args.chs" \
-        and norm(ast.unparse(comp[0].value.elt)) == "(os.path.join(args.src, ch), os.path.join(args.dest, ch))"
+        and pyutil.alpha(comp[0].value) == "[(os.path.join(args.src, v0), os.path.join(args.dest, v0)) for v0 in args.chs]"
     fallback = [n for n in sd if norm(ast.unparse(n.value)) == "[(args.src, args.dest)]"]
     guarded = fallback and isinstance(m.parents.get(fallback[0]), ast.If) and norm(ast.unparse(m.parents.get(fallback[0]).test)) == "not args.srcdests"
     if ok_chs and ok_sd and guarded and not muts:
